@@ -421,7 +421,8 @@ def check_equiv(rep, rule, construct, what, code, spec, where="", eq=None, assum
         cs = run.A.summary(construct)
         canonical = any(x[0] == "param" and x[1].startswith("#") for t_ in (code, spec) for x in walk(t_))
         code = subst(close_loops(cs, code), canon_params(cs)) if canonical else close_loops(cs, code)
-    eq.vocab_key = f"{rule}|{construct}|{key or what}"
+    # (a rule run on behalf of another property, '<prop>-DEP/<rule>', shares the recorded vocabulary of the rule itself)
+    eq.vocab_key = f"{rule.split('-DEP/', 1)[-1]}|{construct}|{key or what}"
     mism, rows = eq.compare(code, spec, assume=assume, alias=cond_alias, int_subjects=int_subjects)
     if os.environ.get("PRSA_RECORD_VOCAB"):
         eq.new_vocabulary()
